@@ -105,8 +105,12 @@ Fixpoint build (fuel : nat) (d : Z) (items : list (Z * Z)) : tree * list (Z * Z)
     end
   end.
 
-Definition kraft_sum (lens : list Z) : Z :=
-  fold_left (fun acc l => if l =? 0 then acc else acc + 2 ^ (15 - l)) lens 0.
+(** Kraft sum scaled by 2^15: every used symbol of length l weighs 2^(15-l); a
+    complete code weighs exactly 2^15. *)
+Definition wt (l : Z) : Z := 2 ^ (15 - l).
+Fixpoint sumw (items : list (Z * Z)) : Z :=
+  match items with [] => 0 | it :: tl => wt (fst it) + sumw tl end.
+Definition kraft_sum (lens : list Z) : Z := sumw (lens_items lens).
 
 Definition lens_in_range (lens : list Z) : bool := forallb (fun l => (0 <=? l) && (l <=? 15)) lens.
 
